@@ -566,10 +566,10 @@ def run(rep, program: Program, tier: str) -> None:
         "finiteness of values is not decided",
     ]
     et = ExcTypes(program)
-    rule_r1_r2(rep, program, et)
-    rule_r3(rep, program, et)
-    rule_r3b(rep, program, et)
-    rule_r4(rep, program, et)
-    rule_r5(rep, program, et)
-    rule_r6(rep, program, et)
-    rule_r7(rep, program)
+    rep.isolate(rule_r1_r2, rep, program, et)
+    rep.isolate(rule_r3, rep, program, et)
+    rep.isolate(rule_r3b, rep, program, et)
+    rep.isolate(rule_r4, rep, program, et)
+    rep.isolate(rule_r5, rep, program, et)
+    rep.isolate(rule_r6, rep, program, et)
+    rep.isolate(rule_r7, rep, program)
